@@ -158,6 +158,7 @@ func (eval Evaluator) WithKey(evk rlwe.EvaluationKeySet) *Evaluator {
 		Evaluator:        eval.Evaluator.WithKey(evk),
 		evaluatorBuffers: eval.evaluatorBuffers,
 		Encoder:          eval.Encoder,
+		ScaleInvariant:   eval.ScaleInvariant,
 	}
 }
 
